@@ -9,6 +9,13 @@ import "math/big"
 // double-float, long-float, complex. signed-byte and unsigned-byte are
 // converted to bignum.
 func NormalizeNumber(v0, v1 Object) (n0, n1 Object) {
+	// An octet or bit is a small fixnum.
+	switch t1 := v1.(type) {
+	case Octet:
+		v1 = Fixnum(t1)
+	case Bit:
+		v1 = Fixnum(t1)
+	}
 top:
 	switch t0 := v0.(type) {
 	case Fixnum:
@@ -16,9 +23,6 @@ top:
 		switch t1 := v1.(type) {
 		case Fixnum:
 			n0 = t0
-		case Octet:
-			n0 = t0
-			n1 = Fixnum(t1)
 		case SingleFloat:
 			n0 = SingleFloat(t0)
 		case DoubleFloat:
@@ -53,6 +57,9 @@ top:
 			TypePanic(NewScope(), 0, "numbers", t1, "number")
 		}
 	case Octet:
+		v0 = Fixnum(t0)
+		goto top
+	case Bit:
 		v0 = Fixnum(t0)
 		goto top
 	case SingleFloat:
